@@ -104,6 +104,11 @@ def replay(case):
 ERRNAMES = ("Gxy_dev", "Hxy_dev", "coh_dev", "Gxy_error", "Hxy_mag_error", "Hxy_rad_error", "Hxy_deg_error", "coh_error")
 
 
+# quantities that are a difference of two terms of the size of Gyy ((1-coh)*Gyy): a correct implementation may form them in another
+# order or clamp them at zero, so they are compared to rounding *of Gyy*, not of their own (possibly cancelled) value
+CANCEL = ("GyyRx", "GyySx")
+
+
 def check_relations(res, raw, tag, out, seen, case):
     d, cfg, iscsd, fs = raw
     exp = rm.expected(d, iscsd, fs)
@@ -135,7 +140,7 @@ def check_relations(res, raw, tag, out, seen, case):
                     add(f"none/{a}", f"{a} should be None for {'a cross' if iscsd else 'an auto'}-spectrum, got {type(v).__name__}")
             elif v is None:
                 add(f"isnone/{a}", f"{a} is None")
-            elif not rm.values_equal(v, exp[a], 1e-11):
+            elif not rm.values_equal(v, exp[a], 1e-11, scale=exp["Gyy"] if a in CANCEL else None):
                 add(f"relation/{a}", f"{a}={np.asarray(v).tolist()[:4]} but the documented function of the raw fields gives {np.asarray(exp[a]).tolist()[:4]}")
         elif a in ERRNAMES:
             if (v is None) != (not iscsd):
